@@ -236,20 +236,22 @@ theorem rot_lMul_commutes (M k L : ℕ) (c : List K) (hc : c.length = L) (x : Li
   ⟨fun h => lMul_rot_real k L c hc x h hx, fun h1 h2 => lMul_rot_fast M k L c hc x h1 h2 hx⟩
 
 /-- `cos_lat_d_dlat` and `sec_lat_d_dlat_cos2` commute with the rotation when the recurrence weights
- of the two rows of every pair agree (they are functions of `|m|` and `l`), both layouts -/
-theorem rot_latitude_derivatives_commute (M k L : ℕ) (a b : List (List K)) (x : List (List K))
-    (hx : ∀ row ∈ x, row.length = L) :
+ of the two rows of every pair `m ≥ 1` agree (they are functions of `|m|` and `l`), both layouts; the
+ pair `(+0, −0)` of the fast layout — whose `−0` row is masked, hence carries zero weights — is not
+ rotated (`sin 0 = 0`) -/
+theorem rot_latitude_derivatives_commute (hsn : sn 0 = 0) (M k L : ℕ) (a b : List (List K))
+    (x : List (List K)) (hx : ∀ row ∈ x, row.length = L) :
     ((∀ m, a.getD (2 * m + 2) [] = a.getD (2 * m + 1) []) →
      (∀ m, b.getD (2 * m + 2) [] = b.getD (2 * m + 1) []) → x.length % 2 = 1 →
       cosLatDDlat a b (rotReal cs sn N k x) = rotReal cs sn N k (cosLatDDlat a b x) ∧
       secLatDDlatCos2 a b (rotReal cs sn N k x) = rotReal cs sn N k (secLatDDlatCos2 a b x)) ∧
-    ((∀ m, a.getD (2 * m + 1) [] = a.getD (2 * m) []) →
-     (∀ m, b.getD (2 * m + 1) [] = b.getD (2 * m) []) → x.length % 2 = 0 → 2 * M ≤ x.length →
+    ((∀ m, 1 ≤ m → a.getD (2 * m + 1) [] = a.getD (2 * m) []) →
+     (∀ m, 1 ≤ m → b.getD (2 * m + 1) [] = b.getD (2 * m) []) → x.length % 2 = 0 → 2 * M ≤ x.length →
       cosLatDDlat a b (rotFast cs sn M N k x) = rotFast cs sn M N k (cosLatDDlat a b x) ∧
       secLatDDlatCos2 a b (rotFast cs sn M N k x) = rotFast cs sn M N k (secLatDDlatCos2 a b x)) :=
   ⟨fun ha hb h => ⟨twoTerm_rot_real k L _ _ a b ha hb x h hx, twoTerm_rot_real k L _ _ a b ha hb x h hx⟩,
-   fun ha hb h1 h2 => ⟨twoTerm_rot_fast M k L _ _ a b ha hb x h1 h2 hx,
-     twoTerm_rot_fast M k L _ _ a b ha hb x h1 h2 hx⟩⟩
+   fun ha hb h1 h2 => ⟨twoTerm_rot_fast M k hsn L _ _ a b ha hb x h1 h2 hx,
+     twoTerm_rot_fast M k hsn L _ _ a b ha hb x h1 h2 hx⟩⟩
 
 end rotation
 
